@@ -96,3 +96,5 @@ func (s *vBytesSink) Write(p []byte) (int, error) {
 	return len(p), nil
 }
 func (s *vBytesSink) Sync() error { s.syncs++; vrt.Event("sink.sync"); return nil }
+
+func vName(p string, i int) string { return fmt.Sprintf("%s%d", p, i) }
